@@ -18,6 +18,8 @@ type vBook struct {
 	failIter   int // creating the iterator of page index failIter fails (-1: never)
 	fetches    int
 	futureSeen int
+	idle       int       // the first `idle` requests for the future find no news yet
+	onFuture   func(int) // called with the number of each request for the future
 }
 
 type vPage struct {
@@ -91,7 +93,10 @@ func (p *vStreamPage) GetFuture(ctx context.Context) (IStream, error) {
 		return nil, errVerifPage
 	}
 	b.futureSeen++
-	if b.nPresent < len(b.pages) {
+	if b.onFuture != nil {
+		b.onFuture(b.futureSeen)
+	}
+	if b.futureSeen > b.idle && b.nPresent < len(b.pages) {
 		b.nPresent++
 		return &vStreamPage{vPage{book: b, idx: b.nPresent - 1}}, nil
 	}
@@ -357,4 +362,47 @@ func VerifC19_Stream() {
 	verif.Assert("stream_yields_future_pages", cursor == total)
 	verif.Assert("ended_only_when_dry", p.IsRunningDry())
 	verif.Assert("no_more_after_grace", !p.HasNext())
+}
+
+// VerifC19_StreamIdleThenDry: the stream has no news for a while (longer than
+// the grace period), is then told that it is drying up, and the last page
+// arrives right after that, well within the grace period: it must still be
+// delivered (the grace period runs from DryUp, not from the last item).
+func VerifC19_StreamIdleThenDry() {
+	grace := 5 * time.Millisecond
+	backoff := time.Millisecond
+	idle := verif.Len("idlePolls", 0, 12)
+	b := &vBook{failNext: -1, failIter: -1, nPresent: 1, idle: idle}
+	b.pages = [][]int{{0}, {1}}
+	ctx, cancel := context.WithCancel(context.Background())
+	defer cancel()
+	p, err := NewStreamPaginator(ctx, grace, backoff, func(context.Context) (IStream, error) {
+		fp, e := b.fetch(0)
+		if e != nil {
+			return nil, e
+		}
+		return &vStreamPage{*fp}, nil
+	})
+	verif.Assert("constructor", err == nil && p != nil)
+	b.onFuture = func(n int) {
+		if n == idle {
+			_ = p.DryUp() // told while polling; the next request finds the last page
+		}
+	}
+	if idle == 0 {
+		_ = p.DryUp()
+	}
+	cursor := 0
+	for k := 0; k < 4; k++ {
+		if !p.HasNext() {
+			break
+		}
+		item, err := p.GetNext()
+		verif.Assert("getnext_succeeds", err == nil)
+		v, ok := item.(int)
+		verif.Assert("in_order_exactly_once", ok && v == cursor)
+		cursor++
+	}
+	verif.Assert("page_arriving_within_the_grace_period_is_delivered", cursor == 2)
+	verif.Assert("ended_only_when_dry", p.IsRunningDry())
 }
